@@ -82,7 +82,7 @@ def run_case(sh, s, d, case):
         dr0 = Driver(demo, rnd, kind='mapping', spec=bdr.spec.copy())
         dr0.oids = bdr.oids
         dr0.uid = 1000
-        for _ in range(rnd.randrange(1, 4)):
+        for _ in range(random.Random(s + 9).choice([0, 1, 2, 3])):          # (0: the layer pushed over has no changes of its own)
             dr0.step(['store', 'store', 'multi'])
         trace += ['mid:' + x for x in dr0.trace]
         under = (demo, dr0.spec.copy(), nbase)
@@ -183,6 +183,18 @@ def run_case(sh, s, d, case):
             mech = 'c16:%s:%s-differs-from-layered-model' % (stack, name[0])
             sh.violation(mech, {'first': df[0], 'stack': stack, 'trace': trace + dr.trace}, case)
             return None
+        # ids: whatever the demo storage's random source proposes, new_oid() never answers with an id in use in any layer
+        from ZODB.utils import u64 as _u64
+        # (objects that exist now; an id whose object was deleted or un-created is the subject of a finding recorded under C20)
+        in_use = {o for o in dr.spec.oids() if dr.spec.current(o)[1] is not None}
+        for o_used in rnd.sample(sorted(in_use), min(3, len(in_use))):
+            demo_top._next_oid = _u64(o_used)
+            got_oid = demo_top.new_oid()
+            sh.count('new_oid_proposals_of_ids_in_use')
+            if got_oid in in_use:
+                lower = any(x == got_oid for tx in dr.spec.txns[:nlower] for (x, _) in tx.records)
+                sh.violation('c16:%s:new-oid-collides-with-an-id-in-use' % stack, {'oid': got_oid, 'in_lower_layer': lower, 'trace': trace + dr.trace}, case)
+                return None
         # pack through the demo storage, then the current state must be unchanged
         if rnd.random() < 0.4:
             cur_before = {o: (demo_top.load(o) if dr.spec.current(o)[1] is not None else None) for o in dr.spec.oids()}
